@@ -394,6 +394,12 @@ class W4World(World):
         return v
 
     def remember(self, v):
+        if isinstance(v, (list, tuple, dict)):
+            # a non-string value is stored as its string form ("value types must be convertible to string")
+            sv = str(v)
+            for mk in re.findall(r'MK\d+x', sv):
+                self.markers[mk] = sv
+            return
         m = re.search(r'MK\d+x', v) if isinstance(v, str) else None
         if m:
             self.markers[m.group(0)] = v
@@ -405,6 +411,15 @@ class W4World(World):
         self.steps_done += 1
         kind = wchoice(rng, self.cfg['mix'])
         v = lambda nasty=None: self.val(rng, nasty)
+
+        def pv():
+            # property values need not be strings: lists (what a 'combine' merge leaves behind) and numbers too
+            r = rng.random()
+            if r < 0.12:
+                return [v() for _ in range(rng.randint(1, 2))]
+            if r < 0.16:
+                return rng.randint(0, 9)
+            return v()
         gid = v() if rng.random() < 0.4 else 'g-%d' % rng.randint(1, 3)
         s = {'op': kind, 'gid': gid, 'shape': rng.choice([None, None, 'populated', 'empty', 'none'])}
         if kind == 'node_crud':
@@ -412,12 +427,12 @@ class W4World(World):
                                       'delete_node', 'node_exists', 'get_node_json_property_as_object',
                                       'update_node_properties']),
                      node=v(), label=rng.choice(CLASSES), pname=rng.choice(PROP_NAMES),
-                     pval=v(), props={rng.choice(PROP_NAMES): v() for _ in range(rng.randint(1, 3))})
+                     pval=v(), props={rng.choice(PROP_NAMES): pv() for _ in range(rng.randint(1, 3))})
         elif kind == 'link_crud':
             s.update(call=rng.choice(['add_link', 'get_link_properties', 'update_link_property', 'unset_link_property',
                                       'update_link_properties']),
                      a=v(), b=v(), rel=rng.choice(RELS), pname=rng.choice(PROP_NAMES), pval=v(),
-                     props={rng.choice(PROP_NAMES): v() for _ in range(rng.randint(0, 2))})
+                     props={rng.choice(PROP_NAMES): pv() for _ in range(rng.randint(0, 2))})
         elif kind == 'bulk':
             s.update(call=rng.choice(['update_nodes_property', 'list_all_node_ids', 'get_all_nodes_by_class',
                                       'get_all_nodes_by_class_and_type', 'get_stitch_nodes', 'check_node_unique']),
@@ -524,6 +539,8 @@ class W4World(World):
         shapes = list(self.drv.shapes_used)
 
         def benign(v):
+            if isinstance(v, list):
+                return [benign(x) for x in v]
             if not isinstance(v, str):
                 return v
             m = re.search(r'MK\d+x', v)
